@@ -52,6 +52,18 @@ def main(c):
             continue
         seen.add(k)
         c.report(k, w, {"line": l, "replay": G.replay_of(d) if d else {}}, True)
+    # theorems (while the stage on generated behaviours runs in its thread)
+    gen = G.gen_file(c, v, "C39")
+    files = G.model_sources(c, "C39") + [gen, "Properties_C39.v"]
+    files.append("Properties_C39_prediction_refuted.v" if v["v_pred_raw"] else "Properties_C39_prediction.v")
+    files.append("Properties_C39_wrappers_refuted.v" if (v["v_wrap_nonzero"] or v["v_wrap_raw"]) else "Properties_C39_wrappers.v")
+    files.append("Properties_C39_hypotheses.v")
+    res = c.coq(files, timeout=900)
+    if not res.ok:
+        if c.violations and any(x[3] for x in c.violations):
+            c.notes.append("proof obligations failed: %s; concrete failing inputs reported above" % [f[2] for f in res.failed])
+        else:
+            c.coq_failures(res)
     # execution of real generated behaviours (findings of the independent statement, lines for the model)
     g = wait_generated()
     glines = []
@@ -75,18 +87,6 @@ def main(c):
                  {"line": b, "replay": G.replay_of(d)}, True)
     if bad:
         c.notes.append("%d executions differ from the model" % len(bad))
-    # theorems
-    gen = G.gen_file(c, v, "C39")
-    files = G.model_sources(c, "C39") + [gen, "Properties_C39.v"]
-    files.append("Properties_C39_prediction_refuted.v" if v["v_pred_raw"] else "Properties_C39_prediction.v")
-    files.append("Properties_C39_wrappers_refuted.v" if (v["v_wrap_nonzero"] or v["v_wrap_raw"]) else "Properties_C39_wrappers.v")
-    files.append("Properties_C39_hypotheses.v")
-    res = c.coq(files, timeout=900)
-    if not res.ok:
-        if c.violations and any(x[3] for x in c.violations):
-            c.notes.append("proof obligations failed: %s; concrete failing inputs reported above" % [f[2] for f in res.failed])
-        else:
-            c.coq_failures(res)
     c.trusted("drivers props/C39/driver_h.cxx (other hypotheses, coarse images) and props/C39/gdriver.cxx + gencommon.py (generated behaviours: scripted "
               "reference programs props/C39/mfront/*.in, /repo's mfront, g++)",
               "driver props/C39/driver.cxx (mock behaviours, choice oracle, recognition of the images written in the output buffers by "
